@@ -304,6 +304,7 @@ fn bad_free_reason(s: &State, addr: usize) -> String {
 }
 
 unsafe fn h_alloc(layout: Layout) -> *mut u8 {
+    let _shim = crate::galloc::ShimGuard::enter();
     N_ALLOC.fetch_add(1, Relaxed);
     BYTES_REQ.fetch_add(layout.size() as u64, Relaxed);
     let fail = should_fail(layout.size());
@@ -351,6 +352,7 @@ unsafe fn h_alloc(layout: Layout) -> *mut u8 {
 }
 
 unsafe fn h_realloc(ptr: *mut u8, layout: Layout, new_size: usize) -> *mut u8 {
+    let _shim = crate::galloc::ShimGuard::enter();
     N_REALLOC.fetch_add(1, Relaxed);
     BYTES_REQ.fetch_add(new_size as u64, Relaxed);
     let fail = should_fail(new_size);
@@ -438,6 +440,7 @@ unsafe fn h_realloc(ptr: *mut u8, layout: Layout, new_size: usize) -> *mut u8 {
 }
 
 unsafe fn h_dealloc(ptr: *mut u8, layout: Layout) {
+    let _shim = crate::galloc::ShimGuard::enter();
     N_DEALLOC.fetch_add(1, Relaxed);
     match mode() {
         Mode::Count | Mode::Off => unsafe { std::alloc::dealloc(ptr, layout) },
